@@ -10,6 +10,9 @@ pub enum ByteKind {
     Zero,
     Ff,
     Inc,
+    /// any other value: used in the small regions no checksum covers (frame headers, final
+    /// block, crc digits), where every one of the 255 other byte values is tried
+    Any,
 }
 
 impl ByteKind {
@@ -26,6 +29,7 @@ impl ByteKind {
             ByteKind::Zero => "overwrite-00".into(),
             ByteKind::Ff => "overwrite-ff".into(),
             ByteKind::Inc => "overwrite-inc".into(),
+            ByteKind::Any => "overwrite-any".into(),
         }
     }
 }
@@ -122,6 +126,8 @@ impl Damage {
                     ByteKind::Ff
                 } else if k == "overwrite-inc" {
                     ByteKind::Inc
+                } else if k == "overwrite-any" {
+                    ByteKind::Any
                 } else {
                     ByteKind::Zero
                 };
@@ -232,8 +238,17 @@ pub fn enumerate(plan: &Plan) -> (Vec<Damage>, u64) {
         }
         let (vals, d) = byte_values(p[off]);
         dropped += d;
+        let tried: Vec<u8> = vals.iter().map(|(v, _)| *v).collect();
         for (val, kind) in vals {
             out.push(Damage::Byte { off, val, kind });
+        }
+        // where no checksum protects the byte, try every other value too
+        if in_ranges(plan.unchecksummed, off) {
+            for val in 0..=255u8 {
+                if val != p[off] && !tried.contains(&val) {
+                    out.push(Damage::Byte { off, val, kind: ByteKind::Any });
+                }
+            }
         }
     }
     for len in 0..p.len() {
